@@ -607,7 +607,7 @@ def run_config(sc, cfg, quick):
         seen = set()
         ridx = 0
         plan = []
-        passes = 1 if quick else 2
+        passes = 1 if (quick and slow) else 2
         for _ in range(passes):
             order = list(pure_classes)
             rng.shuffle(order)
@@ -616,7 +616,7 @@ def run_config(sc, cfg, quick):
                     plan.append(("pure", [cls] * (2 if slow else 4), 2 if slow else 3))
                 else:
                     plan.append(("pure", [cls] * (3 if slow else rng.randrange(4, 9)), 2 if slow else rng.randrange(3, 6)))
-        nmixed = (1 if quick else (6 if slow else 25))
+        nmixed = ((1 if slow else 3) if quick else (6 if slow else 25))
         for _ in range(nmixed):
             m = rng.randrange(4, 9) if (slow or quick) else rng.randrange(4, 17)
             plan.append(("mixed", [rng.choice(classes) for _ in range(m)], 3 if (slow or quick) else rng.randrange(4, 9)))
@@ -627,10 +627,12 @@ def run_config(sc, cfg, quick):
             if sc.enough():
                 break
             if rname == "churn":
+                # (on the thread pool every request costs one 0.1 s poll interval whatever the number of clients: more
+                # parallel sessions there cost no wall time and make close-while-accepting coincidences likelier)
                 if quick:
-                    ok = churn_round(sc, sp, cfg, 4, 6 if slow else 12, ridx)
+                    ok = churn_round(sc, sp, cfg, 12 if slow else 4, 8 if slow else 12, ridx)
                 else:
-                    ok = churn_round(sc, sp, cfg, 6, 40 if slow else 120, ridx)
+                    ok = churn_round(sc, sp, cfg, 12 if slow else 6, 40 if slow else 120, ridx)
             else:
                 ok = run_round(sc, sp, cfg, rname, hostile_classes, n_good, rng, ridx, seen)
             if not ok:
